@@ -175,3 +175,5 @@ func (i *interpreter) accessT(T types.Type, p *value, write bool) {
 	}
 	i.access(p, write)
 }
+
+const tokenADD = token.ADD
